@@ -17,7 +17,7 @@
 From Coq Require Import ZArith QArith List Bool Lia.
 From VL Require Import Prelude.PyDict Model.Divisor Model.HighestAverages Model.Biprop Model.BipropLoop
      Proofs.Dict_proofs Proofs.Divisor_proofs Proofs.Biprop_proofs Proofs.Biprop_steps Proofs.BipropRow_proofs
-     Proofs.BipropLoop_proofs Proofs.BipropInit_proofs Proofs.BipropProgress_proofs Proofs.BipropTerm_proofs.
+     Proofs.BipropLoop_proofs Proofs.BipropInit_proofs Proofs.BipropProgress_proofs Proofs.BipropTerm_proofs Proofs.BipropFlow_proofs.
 Import ListNotations.
 Open Scope Z_scope.
 
@@ -103,11 +103,29 @@ Proof. exact cut_sound. Qed.
 Theorem C07_matrix_ok_reflect : forall ds ps sup r c m,
   matrix_ok ds ps sup r c m = true <-> matrix_spec ds ps sup r c m.
 Proof. exact matrix_ok_iff. Qed.
-(* completeness of the reference (it never answers FeasUnknown) is not proved: it is observed per
-   instance - an Unknown answer makes the check fail as a broken harness obligation *)
+(* completeness of the reference (wave 6): with duplicate-free index lists and non-negative marginals it never answers
+   FeasUnknown - labels closed after |rows| + |columns| + 1 sweeps, predecessor labels ranked so that the augmenting path is
+   walked within its fuel, closed labels without spare demand violate Hall's condition, one unit of flow per round
+   (Proofs/BipropFlow_proofs.v).  The harness still fails the check on an Unknown answer (there is none) *)
 Definition C07_feasible_ref_complete_full_statement : Prop := forall ds ps sup r c,
   NoDup ds -> NoDup ps -> (forall i, In i ds -> 0 <= r i) -> (forall j, In j ps -> 0 <= c j) ->
   feasible_ref ds ps sup r c <> FeasUnknown.
+Theorem C07_feasible_ref_complete : C07_feasible_ref_complete_full_statement.
+Proof. intros ds ps sup r c Hds Hps Hr Hc. exact (feasible_ref_complete ds ps sup r c Hds Hps Hr Hc). Qed.
+(* hence the reference DECIDES whether a seat matrix with the marginals and the support exists *)
+Theorem C07_feasible_ref_decides : forall ds ps sup r c,
+  NoDup ds -> NoDup ps -> (forall i, In i ds -> 0 <= r i) -> (forall j, In j ps -> 0 <= c j) ->
+  ((exists m, matrix_spec ds ps sup r c m) <-> exists m, feasible_ref ds ps sup r c = FeasMatrix m) /\
+  ((forall m, ~ matrix_spec ds ps sup r c m) <-> exists cut, feasible_ref ds ps sup r c = FeasCut cut).
+Proof.
+  intros ds ps sup r c Hds Hps Hr Hc.
+  pose proof (feasible_ref_sound ds ps sup r c) as S. pose proof (feasible_ref_complete ds ps sup r c Hds Hps Hr Hc) as K.
+  destruct (feasible_ref ds ps sup r c) as [m|cut|]; [| |congruence].
+  - split; [split; [intros _; exists m; reflexivity|intros _; exists m; exact S]|].
+    split; [intros H; exfalso; apply (H m S)|intros (cut & E); discriminate].
+  - split; [split; [intros (m & H); exfalso; apply (S m H)|intros (m & E); discriminate]|].
+    split; [intros _; exists cut; reflexivity|intros _; exact S].
+Qed.
 
 (* ---- a certified row is a divisor-method apportionment (link to C01) ---- *)
 (* min-max form, the statement of C01_optimal: in every district, with the party multipliers as vote
@@ -495,6 +513,8 @@ Print Assumptions C07_units.
 Print Assumptions C07_feasible_ref_sound.
 Print Assumptions C07_cut_sound.
 Print Assumptions C07_matrix_ok_reflect.
+Print Assumptions C07_feasible_ref_complete.
+Print Assumptions C07_feasible_ref_decides.
 Print Assumptions C07_row_divisor_apportionment.
 Print Assumptions C07_row_is_highest_averages.
 Print Assumptions C07_index_covers_support.
